@@ -655,3 +655,49 @@ fn mutate_def_with(r: &mut Rng, d: &AbiTraitDefinition, kind: &str) -> (&'static
         _ => ("unchanged", d),
     }
 }
+
+/// C15 on the interfaces the attribute macro generates: the versions of one evolution family's interface (methods
+/// added, argument/return types with versioned fields, a future-returning method) are checked against one ledger
+/// directory in order — every step is a backward-compatible evolution and has to be accepted, twice in a row.
+pub fn macro_ledger_chains() -> Vec<String> {
+    let mut out = Vec::new();
+    for (fam, steps) in crate::zoo_gen::ledger_chains() {
+        let dir = crate::crypt::tmp_path("macro-ledger").with_extension("d");
+        let _ = std::fs::remove_dir_all(&dir);
+        let _ = std::fs::create_dir_all(&dir);
+        let d = dir.to_string_lossy().to_string();
+        for (k, step) in steps.iter().enumerate() {
+            for round in 0..2 {
+                out.push("#stat op-macro-ledger-steps 1".into());
+                match catch_unwind(AssertUnwindSafe(|| step(&d))) {
+                    Ok(Ok(())) => {}
+                    Ok(Err(e)) => out.push(format!("!C15 compatible-evolution-rejected family={} interface-version={} run={} got={}", fam, k, round, e.replace(' ', "_"))),
+                    Err(_) => out.push(format!("!C15 ledger-panics family={} interface-version={} run={} got={}", fam, k, round, panic_class(&last_panic()))),
+                }
+            }
+        }
+        // and the other way round in a fresh directory: recording the newest first, the older interface versions
+        // (fewer methods) are then checked against what it recorded for their versions
+        let dir2 = crate::crypt::tmp_path("macro-ledger-rev").with_extension("d");
+        let _ = std::fs::remove_dir_all(&dir2);
+        let _ = std::fs::create_dir_all(&dir2);
+        let d2 = dir2.to_string_lossy().to_string();
+        if let Some(last) = steps.last() {
+            out.push("#stat op-macro-ledger-steps 1".into());
+            match catch_unwind(AssertUnwindSafe(|| last(&d2))) {
+                Ok(Ok(())) => {}
+                Ok(Err(e)) => out.push(format!("!C15 first-recording-rejected family={} got={}", fam, e.replace(' ', "_"))),
+                Err(_) => out.push(format!("!C15 ledger-panics family={} first-recording got={}", fam, panic_class(&last_panic()))),
+            }
+            out.push("#stat op-macro-ledger-steps 1".into());
+            match catch_unwind(AssertUnwindSafe(|| last(&d2))) {
+                Ok(Ok(())) => {}
+                Ok(Err(e)) => out.push(format!("!C15 unchanged-interface-rejected family={} got={}", fam, e.replace(' ', "_"))),
+                Err(_) => out.push(format!("!C15 ledger-panics family={} second-run got={}", fam, panic_class(&last_panic()))),
+            }
+        }
+        let _ = std::fs::remove_dir_all(&dir);
+        let _ = std::fs::remove_dir_all(&dir2);
+    }
+    out
+}
